@@ -747,9 +747,21 @@ def run(out, tier, scratch):
     bad = w.check_contracts()
     out.oblige("oracle-contract:Model.CrsCache.contracts hold for CPython str / pyproj on the texts of the run", "oracle-contract",
                not bad, "; ".join(bad[:6]))
-    part_x(out, tier)
-    na = part_a(out, tier, scratch, w)
-    nb = part_b(out, tier, scratch, w)
+    # each part runs even if another one breaks (a changed cache layout must not hide the searches of the other parts)
+    import traceback
+    na = nb = 0
+    for label, part in (("cross-process / after-history search", lambda: part_x(out, tier)),
+                        ("part (a)", lambda: part_a(out, tier, scratch, w)), ("part (b)", lambda: part_b(out, tier, scratch, w))):
+        try:
+            r = part()
+            if label == "part (a)":
+                na = r
+            elif label == "part (b)":
+                nb = r
+        except core.ModelEvalError as e:
+            out.oblige(f"model-evaluation:{label}", "correspondence", False, e.log)
+        except Exception:  # noqa: BLE001
+            out.oblige(f"harness:{label}", "correspondence", False, traceback.format_exc())
     out.notes.append(f"{na} lock-step histories, {nb} value cases evaluated by vm_compute; {len(w.texts)} interned texts, {len(w.srs)} distinct srs")
 
 
